@@ -405,7 +405,7 @@ pub fn run(e: &Engine) {
     e.campaign(
         "grid",
         &format!("every case holds the full grid of {cells} tasks: status {{pending, completed, deleted, recurring, unknown, absent}} x modified {{absent, 4 non-numeric, 4 out-of-range, future, now-180d -/+ near/1h/far, 0, negative, 3 odd syntaxes}} with generated near (60 s-2 h) and far (1 d-460 d) offsets, plus generated concurrent edits (property update, re-open, outright delete) on a second replica, both sync orders, optional third replica and second expiration; non-trivial = at least one task was purged and a purged task was edited concurrently elsewhere"),
-        e.tier.pick(600, 30_000),
+        e.tier.pick(5000, 150_000),
         strategy,
         |c| serde_json::to_value(c).unwrap(),
         check_case,
